@@ -4,6 +4,7 @@ import (
 	"encoding/json"
 	"fmt"
 	"os"
+	"regexp"
 	"runtime"
 	"runtime/debug"
 	"strings"
@@ -56,6 +57,7 @@ type Result struct {
 	SubSeed    uint64              `json:"sub_seed,omitempty"` // seed of the sub-run that violated
 	Digest     string              `json:"digest,omitempty"`   // C07: what the upstreams and clients saw, independent of scheduling
 	Spin       string              `json:"spin,omitempty"`     // watchdog: the MOSN function a goroutine was spinning in
+	LockWait   string              `json:"lockwait,omitempty"` // watchdog: the MOSN function a goroutine was waiting for a mutex in, all samples long
 }
 
 // spinning returns, per goroutine that is running or runnable with MOSN code on its stack, the
@@ -89,6 +91,54 @@ func spinning(dump string) map[string]string {
 	}
 	return out
 }
+
+// lockWaiting: goroutines of the system under test that wait for a sync.Mutex / RWMutex (id -> the MOSN
+// function that asked for the lock). Under synctest such a goroutine is not durably blocked, so the run
+// cannot reach its next quiescent point while it waits.
+func lockWaiting(dump string) map[string]string {
+	out := map[string]string{}
+	for _, g := range strings.Split(dump, "\n\n") {
+		lines := strings.Split(g, "\n")
+		if len(lines) < 2 || !strings.HasPrefix(lines[0], "goroutine ") {
+			continue
+		}
+		hdr := lines[0]
+		i := strings.Index(hdr, "[")
+		if i < 0 || !(strings.HasPrefix(hdr[i:], "[sync.Mutex.Lock") || strings.HasPrefix(hdr[i:], "[sync.RWMutex.") || strings.HasPrefix(hdr[i:], "[semacquire")) {
+			continue
+		}
+		id := strings.Fields(hdr)[1]
+		for li, l := range lines[1:] {
+			l = strings.TrimSpace(l)
+			if strings.HasPrefix(l, "verif/") {
+				break // harness code asked for the lock
+			}
+			if strings.HasPrefix(l, "mosn.io/mosn/pkg/") && !strings.Contains(l, "verifhook") {
+				fn := l
+				if k := strings.LastIndex(fn, "("); k > 0 {
+					fn = fn[:k]
+				}
+				out[id] = strings.TrimPrefix(fn, "mosn.io/mosn/pkg/")
+				// the same goroutine already runs a method of the same object further out (same receiver
+				// type, same receiver pointer): it waits for a lock of an object it is itself working on
+				if m := recvRE.FindStringSubmatch(l); m != nil {
+					for _, o := range lines[1+li+1:] {
+						o = strings.TrimSpace(o)
+						if om := recvRE.FindStringSubmatch(o); om != nil && om[1] == m[1] && om[3] == m[3] {
+							out[id] = "self:" + out[id] + " called (on the same object) from " + om[2]
+							break
+						}
+					}
+				}
+				break
+			}
+		}
+	}
+	return out
+}
+
+// a frame line of a pointer-receiver method: package path + (*Type), method, first argument (the receiver)
+var recvRE = regexp.MustCompile(`^(mosn\.io/mosn/pkg/[^\s(]*\(\*[A-Za-z0-9_]+\))\.([A-Za-z0-9_]+)\((0x[0-9a-f]+)`)
 
 func writeResult(spec *Spec, r *Result) {
 	b, _ := json.Marshal(r)
@@ -128,6 +178,8 @@ func TestWorker(t *testing.T) {
 		// normally takes milliseconds, makes no progress (a loop that never reaches a blocking point).
 		seen := map[string]int{}
 		where := map[string]string{}
+		lseen := map[string]int{}
+		lwhere := map[string]string{}
 		var dump string
 		for i := 0; i < 3; i++ {
 			buf := make([]byte, 4<<20)
@@ -138,6 +190,10 @@ func TestWorker(t *testing.T) {
 					where[id] = fn
 				}
 			}
+			for id, fn := range lockWaiting(dump) {
+				lseen[id]++
+				lwhere[id] = fn
+			}
 			time.Sleep(500 * time.Millisecond)
 		}
 		res.Infra = "watchdog: run did not finish in " + limit.String()
@@ -145,6 +201,15 @@ func TestWorker(t *testing.T) {
 			if n == 3 {
 				res.Infra = ""
 				res.Spin = where[id]
+			}
+		}
+		if res.Spin == "" {
+			// nobody runs, somebody waits for a mutex in every sample: the driver decides (it repeats the
+			// run with parking switched off) whether that is a deadlock of the system under test
+			for id, n := range lseen {
+				if n == 3 && (res.LockWait == "" || lwhere[id] < res.LockWait) {
+					res.LockWait = lwhere[id]
+				}
 			}
 		}
 		res.Panic = dump
